@@ -244,3 +244,77 @@ Definition omen_scorer_load (base enc : pstr) : scorer_tables + xexn :=
          st_ngram := match cp with it :: _ => Z.of_nat (length (snd it)) | [] => (-1)%Z end |})))))).
 
 End OmenScorer.
+
+(* ---------------------------------------------------------------- 3. the guesser's terminals *)
+
+Definition k_directory : pstr := [100; 105; 114; 101; 99; 116; 111; 114; 121]%N.
+Definition k_filenames : pstr := [102; 105; 108; 101; 110; 97; 109; 101; 115]%N.
+Definition k_name : pstr := [110; 97; 109; 101]%N.
+Definition k_values : pstr := [118; 97; 108; 117; 101; 115]%N.
+Definition k_prob : pstr := [112; 114; 111; 98]%N.
+Definition k_version : pstr := [118; 101; 114; 115; 105; 111; 110]%N.
+Definition k_rule_version : pstr := [114; 117; 108; 101; 95; 118; 101; 114; 115; 105; 111; 110]%N.
+Definition k_rule_name : pstr := [114; 117; 108; 101; 95; 110; 97; 109; 101]%N.
+Definition k_uuid : pstr := [117; 117; 105; 100]%N.
+Definition k_program_details : pstr := [84; 82; 65; 73; 78; 73; 78; 71; 95; 80; 82; 79; 71; 82; 65; 77; 95; 68; 69; 84; 65; 73; 76; 83]%N.
+Definition k_dataset_details : pstr := [84; 82; 65; 73; 78; 73; 78; 71; 95; 68; 65; 84; 65; 83; 69; 84; 95; 68; 69; 84; 65; 73; 76; 83]%N.
+Definition n_config_ini : pstr := [99; 111; 110; 102; 105; 103; 46; 105; 110; 105]%N.
+Definition k_BASE_A : pstr := [66; 65; 83; 69; 95; 65]%N.
+Definition k_BASE_D : pstr := [66; 65; 83; 69; 95; 68]%N.
+Definition k_BASE_O : pstr := [66; 65; 83; 69; 95; 79]%N.
+Definition k_BASE_K : pstr := [66; 65; 83; 69; 95; 75]%N.
+Definition k_BASE_Y : pstr := [66; 65; 83; 69; 95; 89]%N.
+Definition k_BASE_X : pstr := [66; 65; 83; 69; 95; 88]%N.
+Definition k_CAPITALIZATION : pstr := [67; 65; 80; 73; 84; 65; 76; 73; 90; 65; 84; 73; 79; 78]%N.
+Definition k_M : pstr := [77]%N.
+Definition k_E : pstr := [69]%N.
+Definition k_W : pstr := [87]%N.
+Definition k_L : pstr := [76]%N.
+Definition n_pcfg_omen_prob : pstr := [112; 99; 102; 103; 95; 111; 109; 101; 110; 95; 112; 114; 111; 98; 46; 116; 120; 116]%N.
+Definition n_Emails : pstr := [69; 109; 97; 105; 108; 115]%N.
+Definition n_email_providers : pstr := [101; 109; 97; 105; 108; 95; 112; 114; 111; 118; 105; 100; 101; 114; 115; 46; 116; 120; 116]%N.
+Definition n_Websites : pstr := [87; 101; 98; 115; 105; 116; 101; 115]%N.
+Definition n_website_hosts : pstr := [119; 101; 98; 115; 105; 116; 101; 95; 104; 111; 115; 116; 115; 46; 116; 120; 116]%N.
+Definition n_Years : pstr := [89; 101; 97; 114; 115]%N.
+Definition n_Context : pstr := [67; 111; 110; 116; 101; 120; 116]%N.
+Definition n_Grammar : pstr := [71; 114; 97; 109; 109; 97; 114]%N.
+Definition n_grammar_txt : pstr := [103; 114; 97; 109; 109; 97; 114; 46; 116; 120; 116]%N.
+Definition n_1_txt : pstr := [49; 46; 116; 120; 116]%N.
+Definition k_ascii : pstr := [97; 115; 99; 105; 105]%N.
+
+Section GuesserGrammar.
+Context (fo : fops) {C S : Type} (W : world fo C S).
+Notation val := (pyval (F fo) C S).
+
+(* a section of config.ini as _load_from_multiple_files uses it: `directory`, `name`, and
+   `filenames` = a JSON list of strings *)
+Definition sect_wf (s : S) (dir name : pstr) (files : list pstr) : Prop :=
+  cp_sect_get (w_cfg W) s k_directory = XDone (Some dir) /\
+  cp_sect_get (w_cfg W) s k_name = XDone (Some name) /\
+  exists text, cp_sect_get (w_cfg W) s k_filenames = XDone (Some text) /\
+               cp_json (w_cfg W) text = XDone (VList (map VStr files)).
+
+(* the part of a file name before its first '.' *)
+Definition stem (file : pstr) : pstr := hd [] (split_on 46%N file).
+
+(* one file of a section: grammar[name + stem] = what the translated _load_from_file reads from
+   <base>/<directory>/<file> into an empty list; a file that does not load ends the loop with False *)
+Definition multi_step (base dir name enc : pstr) (file : pstr) (g : list (val * val))
+  : list (val * val) + xres (val * val) :=
+  let key := VStr (name ++ stem file) in
+  match w_load_from_file W [] (w_path_join W [base; dir; file]) enc with
+  | Done (its, true) => inl (dput key (val_of_items its) g)
+  | Done (its, false) => inr (XDone (VDict (dput key (val_of_items its) g), VBool false))
+  | Fail e => inr (XFail (XBase e))
+  end.
+
+Fixpoint multi_files (base dir name enc : pstr) (files : list pstr) (g : list (val * val)) : xres (val * val) :=
+  match files with
+  | [] => XDone (VDict g, VBool true)
+  | f :: r => match multi_step base dir name enc f g with
+              | inl g' => multi_files base dir name enc r g'
+              | inr v => v
+              end
+  end.
+
+End GuesserGrammar.
